@@ -198,6 +198,9 @@ func smallScope(c *vrep.Ctx, prop string) {
 	c.Bound("thresholds", fmt.Sprint(ts))
 	body := func(r *vx.Run) {
 		words := vChooseWords(r, vSmallAlphabet, 0, maxLen)
+		if r.Scout() {
+			return
+		}
 		var msgs []string
 		matched := 0
 		for ci := 0; ci < ncorp; ci++ {
@@ -262,6 +265,9 @@ func corpusScale(c *vrep.Ctx, prop string) {
 	seen := map[string]bool{}
 	body := func(r *vx.Run) {
 		cs := vChooseCorpusCase(r, docs, fams)
+		if r.Scout() {
+			return
+		}
 		if seen[cs.ID] {
 			r.Note = map[string]interface{}{"dup": true}
 			return
@@ -337,6 +343,9 @@ func c03Bytes(c *vrep.Ctx) {
 			if !strings.HasSuffix(s, "\n") && s != " " {
 				sb.WriteByte(' ')
 			}
+		}
+		if r.Scout() {
+			return
 		}
 		in := []byte(sb.String())
 		toks := vTokenize(in)
